@@ -130,12 +130,124 @@ def expected_arcs(st, spec_like):
     return out
 
 
+def record_build(build):
+    """run `build()` (which constructs a MIRP through the package's own code) with the helper calls recorded"""
+    from vrpqubo.applications import mirp as mirp_mod
+    calls = []
+    orig = {}
+
+    def wrap(name):
+        f = getattr(mirp_mod.MIRP, name)
+        orig[name] = f
+
+        def g(self, *a, **k):
+            calls.append((name, self, a, k))
+            return f(self, *a, **k)
+        setattr(mirp_mod.MIRP, name, g)
+    for nm in ("add_nodes", "add_travel_arcs", "add_exit_arcs", "add_entry_arcs"):
+        wrap(nm)
+    try:
+        m = build()
+    finally:
+        for nm, f in orig.items():
+            setattr(mirp_mod.MIRP, nm, f)
+    return m, calls
+
+
+def spec_from_calls(m, calls):
+    """a model request (exact Fractions of the floats the code used) from recorded helper calls"""
+    toks = ["mirp", fs(F(m.cargo_size)), fs(F(m.time_horizon))]
+    ops = []
+    sup, dem = [], []
+    for name, _, a, k in calls:
+        if name == "add_nodes":
+            nm, init, rate, cap = a
+            ops.append(["PORT", nm, fs(F(init)), fs(F(rate)), fs(F(cap))])
+            (sup if rate > 0 else dem).append(nm)
+        elif name == "add_travel_arcs":
+            args = dict(zip(["distance_function", "vessel_speed", "cost_per_unit_distance", "supply_port_fees", "demand_port_fees"], a))
+            args.update(k)
+            t = ["TRAVEL", fs(F(args["vessel_speed"])), fs(F(args["cost_per_unit_distance"])), str(len(sup) * len(dem))]
+            for s_ in sup:
+                for d_ in dem:
+                    t += [s_, d_, fs(F(args["distance_function"](s_, d_)))]
+            t.append(str(len(sup)))
+            for s_ in sup:
+                t += [s_, fs(F(args["supply_port_fees"][s_]))]
+            t.append(str(len(dem)))
+            for d_ in dem:
+                t += [d_, fs(F(args["demand_port_fees"][d_]))]
+            ops.append(t)
+        elif name == "add_exit_arcs":
+            args = dict(zip(["travel_time", "cost"], a))
+            args.update(k)
+            ops.append(["EXIT", fs(F(args.get("travel_time", 0))), fs(F(args.get("cost", 0)))])
+        else:
+            args = dict(zip(["time_limit", "travel_time", "cost"], a))
+            args.update(k)
+            ops.append(["ENTRY", fs(F(args["time_limit"])), fs(F(args.get("travel_time", 0))), fs(F(args.get("cost", 0)))])
+    toks.append(str(len(ops)))
+    for o in ops:
+        toks += o
+    return " ".join(toks)
+
+
+def correspond_real(res, drv, m, calls, label):
+    """real-valued instance: the model is fed the exact values of the floats the code used; discrete structure is compared
+    exactly, float-valued data at relative 1e-9; instances with a timing tie within 1e-9 are skipped"""
+    rep = drv.ask(spec_from_calls(m, calls))
+    mres, mstate = MU.parse_reply(rep)
+    st = MU.mirp_state(m)
+    tol = Fraction(1, 10 ** 9)
+
+    def close(a, b):
+        if a == core.INF or b == core.INF:
+            return a == b
+        return abs(a - b) <= tol * max(1, abs(a), abs(b))
+    if any(r[0] != "ok" for r in mres):
+        res.disagree(f"helper results {label}", "ok", [r[0] for r in mres])
+        return
+    # tie guard on the timing filter (exact values)
+    nodes = {n[0]: n for n in mstate["g"]["nodes"]}
+    mn, inn = mstate["g"]["nodes"], st["g"]["nodes"]
+    if [n[0] for n in mn] != [n[0] for n in inn]:
+        # a window end within rounding distance of the horizon can add / drop a visit
+        res.features.append("skipped:float-tie-nodes")
+        return
+    for a, b in zip(inn, mn):
+        if a[1] != b[1] or not close(a[2], b[2]) or not close(a[3], b[3]):
+            res.disagree(f"node {a[0]} {label}", a, b)
+            return
+    ma = {(a[2], a[3]): a for a in mstate["g"]["arcs"]}
+    ia = {(a[2], a[3]): a for a in st["g"]["arcs"]}
+    if set(ma) != set(ia):
+        diff = set(ma) ^ set(ia)
+        # only arcs whose timing test is a near-tie may differ
+        for (o, d) in diff:
+            a = ma.get((o, d)) or ia.get((o, d))
+            lo, hi = nodes[o][2], nodes[d][3]
+            if hi == core.INF or abs(lo + a[4] - hi) > tol * max(1, abs(hi)):
+                res.disagree(f"arc set {label}", sorted(set(ia) - set(ma))[:3], sorted(set(ma) - set(ia))[:3])
+                return
+        res.features.append("skipped:float-tie-arcs")
+        return
+    for key, a in ia.items():
+        b = ma[key]
+        if (a[0], a[1]) != (b[0], b[1]) or not close(a[4], b[4]) or not close(a[5], b[5]):
+            res.disagree(f"arc {key} {label}", a, b)
+            return
+    if (st["supply"], st["demand"], st["mapping"]) != (mstate["supply"], mstate["demand"], mstate["mapping"]):
+        res.disagree(f"port lists {label}", st["supply"], mstate["supply"])
+    res.features.append("real-valued-correspondence")
+
+
 def run_case(case, drv):
     res = Result(key=core.case_key(case))
     res.features.append(f"mode:{case['mode']}")
     if case["mode"] == "g1":
         from vrpqubo.examples.mirp_g1 import get_mirp
-        m = get_mirp(case["horizon"])
+        m, calls = record_build(lambda: get_mirp(case["horizon"]))
+        correspond_real(res, drv, m, calls, f"(G1 horizon {case['horizon']})")
         st = MU.mirp_state(m)
         regular = [nm for p in st["supply"] + st["demand"] for nm in st["mapping"][p]]
         kind_oracle(res, m.vrptw, 300, regular, f"(G1 horizon {case['horizon']})")
@@ -169,7 +281,8 @@ def run_case(case, drv):
         gen_ = get_generator(case["ns"], case["nd"], case["horizon"])
         gen_.seed = case["seed"]
         try:
-            m = gen_.get_random_mirp(reset_seed=True)
+            m, calls = record_build(lambda: gen_.get_random_mirp(reset_seed=True))
+            correspond_real(res, drv, m, calls, f"(random MIRP seed {case['seed']})")
         except ValueError as e:
             # a sampled capacity below the cargo size gives an inverted window: Node raises (documented guard of C11)
             res.features.append("random:rejected-by-node")
